@@ -15,6 +15,7 @@ import (
 	"github.com/formancehq/numscript/internal/lsp"
 	"github.com/formancehq/numscript/internal/verifmc/gen"
 	"github.com/formancehq/numscript/internal/verifmc/mc"
+	"github.com/formancehq/numscript/internal/verifmc/ref"
 	"github.com/sourcegraph/jsonrpc2"
 )
 
@@ -123,7 +124,7 @@ func (s *lspServer) open(uri, text string) (string, string) {
 }
 
 func (s *lspServer) change(uri string, texts ...string) (string, string) {
-	var ch []map[string]any
+	ch := []map[string]any{} // an empty list is sent as [] (a change notification that changes nothing)
 	for _, t := range texts {
 		ch = append(ch, map[string]any{"text": t})
 	}
@@ -193,6 +194,7 @@ type c19Op struct {
 	uri, text int
 	multi     bool // didChange with two content changes (the last one wins)
 	reopen    bool // didClose followed by didOpen (when the document is open)
+	empty     bool // didChange with an empty list of content changes: the text stays as it was
 }
 
 // freshBattery caches, per text, the responses of a fresh server that only opened that text.
@@ -237,13 +239,14 @@ func runC19(w *mc.Worker) {
 	var ops []c19Op
 	for u := 0; u < nURI; u++ {
 		for t := 0; t < nText; t++ {
-			ops = append(ops, c19Op{u, t, false, false})
+			ops = append(ops, c19Op{u, t, false, false, false})
 		}
 	}
 	// the multi-change variant, for one text per URI
 	for u := 0; u < nURI; u++ {
-		ops = append(ops, c19Op{u, 1, true, false})
-		ops = append(ops, c19Op{u, 1, false, true}, c19Op{u, 0, false, true})
+		ops = append(ops, c19Op{u, 1, true, false, false})
+		ops = append(ops, c19Op{u, 1, false, true, false}, c19Op{u, 0, false, true, false})
+		ops = append(ops, c19Op{u, 0, false, false, true})
 	}
 	neverOpened := uris[3]
 
@@ -282,6 +285,18 @@ func runC19(w *mc.Worker) {
 			op := ops[oi]
 			uri, text := uris[op.uri], texts[op.text]
 			var out, p string
+			if _, opened := model[uri]; opened && op.empty {
+				_, p = s.change(uri)
+				desc = append(desc, fmt.Sprintf("didChange(%s, [])", uri))
+				if p != "" {
+					w.WithPath(space, path, func() {
+						w.Violation("C19.panic:notification", "the server panicked while handling a notification: "+p, len(path), Case{Script: strings.Join(desc, " ; ")})
+					})
+					return "", false
+				}
+				lastOut, lastURI = "", "" // nothing changed: whether diagnostics are published again is not judged
+				continue
+			}
 			if _, opened := model[uri]; !opened {
 				out, p = s.open(uri, text)
 				desc = append(desc, fmt.Sprintf("didOpen(%s, T%d)", uri, op.text))
@@ -328,7 +343,7 @@ func runC19(w *mc.Worker) {
 			}
 		}
 		// the notification published by the last step
-		if bad == "" && len(path) > 0 {
+		if bad == "" && len(path) > 0 && lastURI != "" {
 			exp, e := freshFor(lastURI, model[lastURI])
 			if e != "" {
 				bad, clause = e, "C19.panic:fresh"
@@ -408,7 +423,7 @@ func runC19(w *mc.Worker) {
 
 	// (a1) all histories up to `full`
 	name := fmt.Sprintf("histories-U%d-T%d-H%d", nURI, nText, full)
-	w.Stage(name, fmt.Sprintf("all notification histories of length <= %d over %d URIs x %d texts (+ multi-change variants), full query battery in every reached state", full, nURI, nText), func() {
+	w.Stage(name, fmt.Sprintf("all notification histories of length <= %d over %d URIs x %d texts (+ multi-change, empty-change and close/reopen variants), full query battery in every reached state", full, nURI, nText), func() {
 		space := name + "/hist"
 		if path, ok := w.ReplayPath(space); ok {
 			checkHistory(space, path)
@@ -500,6 +515,12 @@ func runC19(w *mc.Worker) {
 						if n > 0 {
 							seps[0] = seps[0][1:]
 						}
+					case 3: // compact: no blank wherever the two neighbours still lex as themselves (touching tokens)
+						for i := 1; i < n; i++ {
+							if lx := ref.Lex(pr.Toks[i-1] + pr.Toks[i]); len(lx.Toks) == 2 && lx.Toks[0].Text == pr.Toks[i-1] && lx.Toks[1].Text == pr.Toks[i] && !lx.Err && !lx.Unmodelled {
+								seps[i] = ""
+							}
+						}
 					case 2: // one token per line, indentation rising 0,2,4,0,2,4,...
 						for i := 1; i < n; i++ {
 							seps[i] = "\n" + strings.Repeat(" ", 2*(i%3))
@@ -507,12 +528,16 @@ func runC19(w *mc.Worker) {
 					}
 					seps[n] = "\n"
 					ltext, starts, ends := pr.Render(seps)
+					if lx := ref.Lex(ltext); len(lx.Toks) != n {
+						w.Count("compact-layout-relexes-differently", 1)
+						return
+					}
 					navCheck(w, prog, pr, ltext, starts, ends, uris[0])
 				})
 			})
 		})
 	}
-	navStage(fmt.Sprintf("navigation-v%d", weight), weight, []int{0}, "the one-line layout")
+	navStage(fmt.Sprintf("navigation-v%d", weight), weight, []int{0, 3}, "the one-line layout and the compact layout (no blank between two tokens that still lex as themselves: touching tokens)")
 	navStage(fmt.Sprintf("navigation-layouts-v%d", weight-1), weight-1, []int{1, 2}, "2 layouts with one token per line (indentation falling / rising, so that earlier tokens start right / left of later ones)")
 }
 
@@ -672,10 +697,19 @@ func navCheck(w *mc.Worker, prog *gen.Program, pr *gen.Printed, text string, sta
 				}
 				return "", true
 			}
+			_, insideNavigable := info[inside]
 			switch {
+			case inside >= 0 && !insideNavigable && atEnd >= 0:
+				// touching tokens: the position starts a token that is neither a variable use nor a builtin
+				// name and ends the previous token, which may answer (end position) or not
+				if msg, ok := expectTok(atEnd); !ok {
+					if hv != "null" || df != "null" {
+						bad, clause = msg, "C19.navigation"
+					}
+				}
 			case inside >= 0:
 				msg, ok := expectTok(inside)
-				// the first character of a token can also be the end position of the previous one only when they touch (never in this layout)
+				// (when two navigable tokens touch, the shared position belongs to the one it starts)
 				if !ok {
 					bad, clause = msg, "C19.navigation"
 				}
